@@ -537,7 +537,7 @@ class SimpleObjectMethod(DeserializationMethod):
         has_discriminator = False
         if len(data) != fields_count and not self.typed_dict:
             for key in data.keys() - self.all_aliases:
-                if key == discriminator:
+                if discriminator is not None and key == discriminator:
                     has_discriminator = True
                 else:
                     field_errors = set_child_error(
@@ -707,7 +707,7 @@ class ObjectMethod(DeserializationMethod):
             elif remain:
                 if not self.additional_properties:
                     for key in remain:
-                        if key != discriminator:
+                        if discriminator is None or key != discriminator:
                             field_errors = set_child_error(
                                 field_errors, key, ValidationError(self.unexpected)
                             )
@@ -717,7 +717,7 @@ class ObjectMethod(DeserializationMethod):
         elif len(data) != fields_count:
             if not self.additional_properties:
                 for key in data.keys() - self.all_aliases:
-                    if key != discriminator:
+                    if discriminator is None or key != discriminator:
                         field_errors = set_child_error(
                             field_errors, key, ValidationError(self.unexpected)
                         )
